@@ -129,10 +129,11 @@ class FileSearchers(object):
                 'directory entries x mtime difference -2..2 s x rebuild; module names FOO-MIB and Foo')
 
     def blocks(self, tier):
-        return [{'kind': k, 'name': n} for k in ('any1', 'any2', 'py', 'pkg') for n in ('FOO-MIB', 'Foo')]
+        return [{'kind': k, 'name': n} for k in ('any1', 'any2', 'py', 'pkg', 'pkgdot', 'pkgdotdecoy')
+                for n in ('FOO-MIB', 'Foo')]
 
     def cases(self, block, tier):
-        pycs = (0, 1, 2) if block['kind'] in ('py', 'pkg') else (0,)
+        pycs = (0, 1, 2) if block['kind'] in ('py', 'pkg', 'pkgdot', 'pkgdotdecoy') else (0,)
         for main, other, lower, longer, pyc, delta, rebuild in itertools.product(
                 (0, 1, 2), (0, 1), (0, 1), (0, 1), pycs, (-2, -1, 0, 1, 2), (0, 1)):
             yield {'kind': block['kind'], 'name': block['name'], 'main': main, 'other': other, 'lower': lower,
@@ -146,14 +147,24 @@ class FileSearchers(object):
         pkgname = None
         try:
             kind, name = case['kind'], case['name']
-            ext = '.py' if kind in ('py', 'pkg') else '.json'
-            other_ext = {'any1': '.txt', 'any2': '.bak', 'py': '.pyo', 'pkg': '.txt'}[kind]
+            ext = '.py' if kind.startswith('p') else '.json'
+            other_ext = {'any1': '.txt', 'any2': '.bak', 'py': '.pyo'}.get(kind, '.txt')
             target = d
-            if kind == 'pkg':
-                pkgname = os.path.basename(d)
+            if kind.startswith('pkg'):
+                pkgname = top = os.path.basename(d)
                 target = d
                 with open(os.path.join(d, '__init__.py'), 'w') as f:
                     f.write('')
+                if kind != 'pkg':
+                    # a dotted package name: the modules live in <top>.mibs; with the decoy the directory of <top>
+                    # itself holds an up-to-date file of the requested name, which is not part of the package asked
+                    target = os.path.join(d, 'mibs')
+                    os.mkdir(target)
+                    with open(os.path.join(target, '__init__.py'), 'w') as f:
+                        f.write('')
+                    pkgname = top + '.mibs'
+                    if kind == 'pkgdotdecoy':
+                        populate(d, name, ext, 1, None, 0, 0, 0, 2)
                 sys.path.insert(0, os.path.dirname(d))
             populate(target, name, ext, case['main'], other_ext if case['other'] else None, case['lower'], case['longer'],
                      case['pyc'], case['delta'])
@@ -188,7 +199,8 @@ class FileSearchers(object):
         finally:
             if pkgname:
                 sys.path.remove(os.path.dirname(d))
-                for k in [k for k in sys.modules if k == pkgname or k.startswith(pkgname + '.')]:
+                top = pkgname.split('.')[0]
+                for k in [k for k in sys.modules if k == top or k.startswith(top + '.')]:
                     del sys.modules[k]
                 importlib.invalidate_caches()
             shutil.rmtree(d, ignore_errors=True)
